@@ -113,7 +113,7 @@ static void xs_add(const char *name, long n)
 
 enum { T_EVENT, T_ONCE, T_BEV_SOCK, T_BEV_PAIR, T_BEV_FILTER, T_EVBUF, T_LISTENER, T__N };
 static const char *const tname[] = { "event", "once", "bev-socket", "bev-pair", "bev-filter", "evbuffer", "listener" };
-enum { EK_TIMER, EK_USER, EK_IO };
+enum { EK_TIMER, EK_USER, EK_IO, EK_SIG };
 enum { REL_FREE, REL_FINALIZE, REL_FREE_FINALIZE };
 enum { CTX_DIRECT, CTX_SELF, CTX_OTHER };
 enum { END_CLEAN, END_BASEFREE_PENDING, END_BASE_FIRST, END__N };
@@ -136,7 +136,7 @@ struct obj {
 	int sp[2];          /* sp[0] library side, sp[1] harness peer */
 	int libfd;          /* fd owned by the library (CLOSE_ON_FREE) or -1 */
 	int libfd_closes;
-	int arm[MAXARM], narm;   /* ids to release when one of my callbacks runs next */
+	int arm[MAXARM], narm, arm_delay;   /* ids to release when one of my callbacks runs next */
 	int freectx_count;
 	int saved_tag[4];
 };
@@ -194,6 +194,7 @@ static void cb_leave(struct obj *o)
 {
 	int i, n = o->narm, ids[MAXARM];
 	/* releases armed on this callback (self or others) */
+	if (n && o->arm_delay > 0) { o->arm_delay--; o->in_cb--; return; }   /* signal events: release on a later delivery of the same activation */
 	memcpy(ids, o->arm, sizeof(ids)); o->narm = 0;
 	for (i = 0; i < n; i++) {
 		struct obj *t = &O[ids[i]];
@@ -302,16 +303,16 @@ static void create(int type, vh_rng *r)
 	cur_tag = o->id;
 	switch (type) {
 	case T_EVENT:
-		o->variant = (int)vh_below(r, 3); o->persist = (int)vh_below(r, 2); o->relmode = (int)vh_below(r, 3);
+		o->variant = (int)vh_below(r, 4); o->persist = (int)vh_below(r, 2); o->relmode = (int)vh_below(r, 3);
 		o->want_fin = o->relmode != REL_FREE;
 		if (o->variant == EK_IO) mksp(o);
 		{
-			short fl = (short)((o->variant == EK_IO ? EV_READ : 0) | (o->persist ? EV_PERSIST : 0) | (o->want_fin && vh_chance(r, 1, 2) ? EV_FINALIZE : 0));
-			if (o->relmode == REL_FINALIZE) { o->ev = malloc(event_get_struct_event_size()); event_assign(o->ev, base, o->variant == EK_IO ? o->sp[0] : -1, fl, ev_cb, o); }
-			else o->ev = event_new(base, o->variant == EK_IO ? o->sp[0] : -1, fl, ev_cb, o);
+			short fl = (short)((o->variant == EK_IO ? EV_READ : o->variant == EK_SIG ? EV_SIGNAL : 0) | (o->persist ? EV_PERSIST : 0) | (o->want_fin && vh_chance(r, 1, 2) ? EV_FINALIZE : 0));
+			if (o->relmode == REL_FINALIZE) { o->ev = malloc(event_get_struct_event_size()); event_assign(o->ev, base, o->variant == EK_IO ? o->sp[0] : o->variant == EK_SIG ? SIGUSR1 : -1, fl, ev_cb, o); }
+			else o->ev = event_new(base, o->variant == EK_IO ? o->sp[0] : o->variant == EK_SIG ? SIGUSR1 : -1, fl, ev_cb, o);
 		}
 		if (vh_chance(r, 1, 3)) event_priority_set(o->ev, 0);
-		sc("E%d(%s%s,rel%d) ", o->id, o->variant == EK_TIMER ? "tmr" : o->variant == EK_USER ? "usr" : "io", o->persist ? "+p" : "", o->relmode);
+		sc("E%d(%s%s,rel%d) ", o->id, o->variant == EK_TIMER ? "tmr" : o->variant == EK_USER ? "usr" : o->variant == EK_SIG ? "sig" : "io", o->persist ? "+p" : "", o->relmode);
 		break;
 	case T_ONCE: {
 		struct timeval tv; long ms = (long)vh_below(r, 30);
@@ -373,6 +374,44 @@ static void create(int type, vh_rng *r)
 }
 
 /* ------------------------------------------------------------------ actions */
+/* "crowd" cases: enough anonymous deferred-callback evbuffers to push the deferred callbacks scheduled after them
+ * in one loop iteration over MAX_DEFERREDS_QUEUED, i.e. onto the base's active-later queue (seed C10-1) */
+#define NBALLAST 40
+static struct evbuffer *ballast[NBALLAST]; static int nballast; static long ballast_cbs;
+static void ballast_cb(struct evbuffer *b, const struct evbuffer_cb_info *i, void *arg) { (void)b; (void)i; (void)arg; ballast_cbs++; }
+static void ballast_make(void)
+{
+	int i;
+	cur_tag = -1;
+	for (i = 0; i < NBALLAST; i++) {
+		ballast[i] = evbuffer_new();
+		evbuffer_defer_callbacks(ballast[i], base);
+		evbuffer_add_cb(ballast[i], ballast_cb, NULL);
+	}
+	nballast = NBALLAST;
+	sc("crowd%d ", NBALLAST);
+}
+static void ballast_poke(void) { int i; for (i = 0; i < nballast; i++) evbuffer_add(ballast[i], "x", 1); }
+static void ballast_free(void) { int i; for (i = 0; i < nballast; i++) evbuffer_free(ballast[i]); nballast = 0; }
+static void trigger(struct obj *o, vh_rng *r);
+/* schedule the object's deferred callbacks twice behind the crowd */
+static void crowd_trigger(struct obj *o, vh_rng *r)
+{
+	int k;
+	if (!o->alive) return;
+	ballast_poke();
+	for (k = 0; k < 2; k++) {
+		if (!o->alive) break;
+		switch (o->type) {
+		case T_BEV_SOCK: case T_BEV_FILTER: case T_BEV_PAIR:
+			sc("T%d ", o->id);
+			{ int save = cur_tag; cur_tag = o->id; bufferevent_trigger(o->bev, k ? EV_WRITE : EV_READ, 0); if (o->type == T_BEV_PAIR) bufferevent_write(o->bev, "pp", 2); cur_tag = save; }
+			break;
+		default: trigger(o, r); break;
+		}
+	}
+	xs("crowd_triggers");
+}
 static void trigger(struct obj *o, vh_rng *r)
 {
 	struct timeval tv;
@@ -384,6 +423,13 @@ static void trigger(struct obj *o, vh_rng *r)
 	case T_EVENT:
 		if (o->variant == EK_TIMER) { tv.tv_sec = 0; tv.tv_usec = (long)vh_range(r, 0, 20) * 1000; event_add(o->ev, &tv); }
 		else if (o->variant == EK_USER) event_active(o->ev, EV_READ, 1);
+		else if (o->variant == EK_SIG) {
+			/* several deliveries from one activation: a release inside delivery k must stop deliveries k+1..n (seed C10-2) */
+			int nc = (int)vh_range(r, 1, 4);
+			event_add(o->ev, NULL); event_active(o->ev, EV_SIGNAL, (short)nc);
+			o->arm_delay = (int)vh_below(r, (uint64_t)nc);
+			sc("x%d/%d ", nc, o->arm_delay); xs("signal_activations_multi");
+		}
 		else { (void)__real_write(o->sp[1], "x", 1); event_add(o->ev, NULL); }
 		break;
 	case T_BEV_SOCK: case T_BEV_FILTER:
@@ -586,14 +632,16 @@ static void run_case(long idx, vh_rng rng, int enum_mode)
 			step_loop(7);
 		}
 	} else {
-		int n = (int)vh_range(&r, 2, 6);
+		int n = (int)vh_range(&r, 2, 6), crowd;
 		for (k = 0; k < n; k++) create((int)vh_below(&r, T__N), &r);
 		nsteps = (int)vh_range(&r, 4, vh_opt.thorough ? 20 : 14);
 		ending = (int)vh_below(&r, END__N);
+		crowd = vh_chance(&r, 1, 5);
+		if (crowd) { ballast_make(); ending = END_CLEAN; }   /* the crowd's own deferred runs must drain before the census */
 		for (k = 0; k < nsteps && nobj > 0; k++) {
 			struct obj *o = &O[vh_below(&r, (uint64_t)nobj)];
 			switch (vh_below(&r, 8)) {
-			case 0: case 1: case 2: trigger(o, &r); break;
+			case 0: case 1: case 2: if (crowd) crowd_trigger(o, &r); else trigger(o, &r); break;
 			case 3: case 4: step_loop((int)vh_range(&r, 0, 12)); break;
 			case 5: release_obj(o, CTX_DIRECT); break;
 			default: {
@@ -609,6 +657,7 @@ static void run_case(long idx, vh_rng rng, int enum_mode)
 	}
 	/* ending */
 	sc("| end%d ", ending);
+	if (nballast) ballast_free();   /* deferred-callback evbuffers go before their base (see CALIBRATED below) */
 	if (ending == END_BASE_FIRST) {
 		/* everything that refers to the base goes first; plain evbuffers outlive it.  CALIBRATED: events,
 		 * bufferevents, listeners and deferred-callback evbuffers must be released before their base. */
